@@ -45,6 +45,9 @@ func TestC06Hostile(t *testing.T) {
 	for _, data := range c06HostileBytes() {
 		for _, v := range []int{3, 4, 5} {
 			for _, buf := range []int{16, 4096} {
+				if h := c06ParseHdr(data); h.wellFormed && h.rl > 16<<20 && !((v == 4 && buf == 16) || (v == 5 && buf == 4096)) {
+					continue // inputs declaring hundreds of MiB: two runs each are enough
+				}
 				s := c06BytesScen{V: v, Buf: buf, Data: data, Mut: "hostile"}
 				c := &ev.Case{}
 				viol := c06RunBytes(s, c)
